@@ -193,8 +193,67 @@ GUARDED_ALWAYS = ["KuramotoSivashinsky", "GeneralGradientNormStepper", "GeneralN
                   "Burgers", "FisherKPP"]
 
 
+def probe_wrapper_derivatives(kind, seed, order=2):
+    """derivatives THROUGH the wrappers and their compositions — ForcedStepper, RepeatedStepper, ForcedStepper of a
+    RepeatedStepper, a forced rollout with a forcing trajectory: with respect to dt, the state, the forcing and one PDE
+    coefficient, forward mode against central differences and reverse mode against forward mode"""
+    import jax
+    import jax.numpy as jnp
+    import exponax as ex
+    rng = np.random.default_rng(seed)
+    N, nsub, dt0, nu0 = 12, 3, 0.04, 0.05
+    u = jnp.asarray(S.random_state(rng, 1, 1, N, "smooth"))
+    f = jnp.asarray(S.random_state(rng, 1, 1, N, "smooth")) * 0.7
+    fs = jnp.stack([f, 0.5 * f + 0.1, -f])
+    w = jnp.asarray(S.random_state(rng, 1, 1, N, "smooth"))
+
+    def inner(dt, nu):
+        return ex.stepper.Burgers(1, 3.0, N, dt, diffusivity=nu, order=order)
+
+    def run(dt, nu, x, g):
+        if kind == "forced":
+            return ex.ForcedStepper(inner(dt, nu))(x, g)
+        if kind == "repeated":
+            return ex.RepeatedStepper(inner(dt, nu), nsub)(x)
+        if kind == "forced_repeated":
+            return ex.ForcedStepper(ex.RepeatedStepper(inner(dt, nu), nsub))(x, g)
+        if kind == "repeated_forced_rollout":
+            return ex.rollout(ex.ForcedStepper(ex.RepeatedStepper(inner(dt, nu), 2)), 3, takes_aux=True, constant_aux=False)(x, fs * (g[0, 0] / f[0, 0]))
+        raise KeyError(kind)
+    res, finite = {}, True
+    args0 = (jnp.asarray(dt0), jnp.asarray(nu0), u, f)
+    tangents = {"dt": (1.0, 0.0, 0 * u, 0 * f), "coef": (0.0, 1.0, 0 * u, 0 * f),
+                "state": (0.0, 0.0, jnp.asarray(S.random_state(rng, 1, 1, N, "smooth")), 0 * f),
+                "forcing": (0.0, 0.0, 0 * u, jnp.asarray(S.random_state(rng, 1, 1, N, "smooth")))}
+    for key, tg in tangents.items():
+        tg = tuple(jnp.asarray(t, dtype=a.dtype) for t, a in zip(tg, args0))
+        _, jv = jax.jvp(run, args0, tg)
+        h = 1e-6
+        plus = run(*[a + h * t for a, t in zip(args0, tg)])
+        minus = run(*[a - h * t for a, t in zip(args0, tg)])
+        fd = (np.asarray(plus) - np.asarray(minus)) / (2 * h)
+        sc = float(np.max(np.abs(fd))) + 1e-9
+        res[key] = float(np.max(np.abs(np.asarray(jv) - fd))) / sc
+        ww = jnp.broadcast_to(w, jv.shape)
+        gr = jax.grad(lambda *a: jnp.sum(ww * run(*a)), argnums=(0, 1, 2, 3))(*args0)
+        rev = sum(float(jnp.sum(g_ * t_)) for g_, t_ in zip(gr, tg))
+        fwd = float(jnp.sum(ww * jv))
+        res[key + ":reverse"] = abs(rev - fwd) / (abs(fwd) + sc * float(jnp.linalg.norm(ww)) * 1e-3 + 1e-12)
+        finite = finite and bool(np.all(np.isfinite(np.asarray(jv)))) and bool(np.isfinite(rev))
+    bad = {k: x for k, x in res.items() if not x <= (1e-8 if k.endswith(":reverse") else 2e-5)}
+    return {"ok": bool(not bad and finite), "bad": bad, "finite": finite, "all": res}
+
+
 def oracle(ctx, deep):
     fails = []
+    for kind in ("forced", "repeated", "forced_repeated", "repeated_forced_rollout"):
+        for order in ([1 + (ctx.seed % 4)] if not deep else [1, 2, 3, 4]):
+            r = probe_wrapper_derivatives(kind, ctx.seed, order)
+            ctx.count(("oracle_wrapper_derivatives", kind, order))
+            if not r["ok"]:
+                for k in (r["bad"] or {"finite": 0}):
+                    fails.append({"key": f"C07:wrapper:{kind}:{k}", "what": f"derivative '{k}' through the {kind} composition of wrappers (Burgers, order {order}) disagrees with central differences / forward mode, or is not finite: {r['bad']}",
+                                  "probe": "wrapper_derivatives", "args": {"kind": kind, "seed": ctx.seed, "order": order}, "observed": r})
     reg = list(S.registry().keys())
     gnames = reg if deep else list(dict.fromkeys(GUARDED_ALWAYS + [n for i, n in enumerate(reg) if (i + ctx.seed) % 4 == 0]))
     for idx, name in enumerate(gnames):
@@ -236,4 +295,5 @@ def oracle(ctx, deep):
 
 
 def replay(probe, args):
-    return {"param_derivatives": probe_param_derivatives, "guarded": probe_guarded_points}[probe](**args)
+    return {"param_derivatives": probe_param_derivatives, "guarded": probe_guarded_points,
+            "wrapper_derivatives": probe_wrapper_derivatives}[probe](**args)
